@@ -73,7 +73,8 @@ func init() {
 	})
 	// ------------------------------------------------------------ C07
 	Register(&refineCheck{id: "C07",
-		rule: "conversions of sampled asset pairs and amounts (1, small, large, at balance) followed by outage patterns of length 0..>AveragePeriod/2, prices moving every block, spot above/below average in the averaging era; per conversion: execution height = first later rated block, credited amount = floor formula at that block's rates (model), plus the model-independent bound to x dst_rate <= in x src_rate on the recorded history; distinct = distinct executed conversions (entry, tx, amounts)",
+		noSweep: true,
+		rule:    "conversions of sampled asset pairs and amounts (1, small, large, at balance) followed by outage patterns of length 0..>AveragePeriod/2, prices moving every block, spot above/below average in the averaging era; per conversion: execution height = first later rated block, credited amount = floor formula at that block's rates (model), plus the model-independent bound to x dst_rate <= in x src_rate on the recorded history; distinct = distinct executed conversions (entry, tx, amounts)",
 		profile: func(rng *rand.Rand, tier string) world.Profile {
 			p := baseProfile(rng)
 			p.Blocks = 40 + rng.Intn(60)
@@ -177,7 +178,8 @@ func init() {
 	})
 	// ------------------------------------------------------------ C14
 	Register(&refineCheck{id: "C14",
-		rule: "balance distributions at two (or three) consecutive snapshots with movements in between: arrivals after the first snapshot, departures before the second, addresses created / emptied, equal stakes, assets without a rate, totals below and above 4,500 x 144 PEG; per-address payout compared with the model (minimum of the two snapshots per asset, USD valuation, proportional, capped), plus the cap checked on the recorded payout rows; distinct = distinct holder payouts",
+		noSweep: true,
+		rule:    "balance distributions at two (or three) consecutive snapshots with movements in between: arrivals after the first snapshot, departures before the second, addresses created / emptied, equal stakes, assets without a rate, totals below and above 4,500 x 144 PEG; per-address payout compared with the model (minimum of the two snapshots per asset, USD valuation, proportional, capped), plus the cap checked on the recorded payout rows; distinct = distinct holder payouts",
 		profile: func(rng *rand.Rand, tier string) world.Profile {
 			p := baseProfile(rng)
 			p.StartEra = []int{eraV20, eraV20Dev, eraV202, eraPIP10}[rng.Intn(4)]
@@ -205,7 +207,8 @@ func init() {
 	})
 	// ------------------------------------------------------------ C15
 	Register(&refineCheck{id: "C15",
-		rule: "activation layouts sweeping the position of each trigger height relative to the 144-block cadence (coinciding with a payout height, one before, one after), prior balances of every kind on the two burn addresses and the mint address, chains crossing each trigger, clean restarts exactly at the trigger heights; balance changes of the listed addresses compared with the model (developer split, one-time adjustments exactly once at exactly their heights); distinct = distinct scheduled events",
+		noSweep: true,
+		rule:    "activation layouts sweeping the position of each trigger height relative to the 144-block cadence (coinciding with a payout height, one before, one after), prior balances of every kind on the two burn addresses and the mint address, chains crossing each trigger, clean restarts exactly at the trigger heights; balance changes of the listed addresses compared with the model (developer split, one-time adjustments exactly once at exactly their heights); distinct = distinct scheduled events",
 		profile: func(rng *rand.Rand, tier string) world.Profile {
 			p := baseProfile(rng)
 			p.StartEra = []int{eraV20 - 1, eraV20, eraV20Dev, eraV202 - 1, eraV204 - 1}[rng.Intn(5)]
